@@ -238,7 +238,7 @@ def run(rep):
         n += 1
         ok = s.converted and any(re.match(r"^Continue=discr\(MessageOps::convert_value\((.*), Option::None\(\), ((upvar:)?self\.version|const:.*PROTOCOL_VERSION|const:aldrin_core::ProtocolVersion::V1_14)\)\)$", g) for g in s.guards)
         rep.check(ok, "C12-R4", "aldrin::client::Client::" + s.fn(), "convert-before-send:%s" % "|".join(sorted(s.kinds)), "a client transport send is not dominated by the conversion of its payload to the negotiated version", line=s.line, detail={"kinds": sorted(s.kinds)})
-    rep.floor("C12-R4", "client transport sends", n, 40)
+    rep.floor("C12-R4", "client transport sends", n, 20)
     n = 0
     for d, b in prog.bodies.items():
         if not d.startswith("aldrin_broker::") or "::test" in d:
